@@ -324,7 +324,7 @@ def gen_build_config():
     p = os.path.join(WORK, "_gen_include", "rime", "build_config.h")
     tmpl = os.path.join(REPO, "src", "rime", "build_config.h.in")
     txt = open(tmpl).read()
-    txt = re.sub(r"#cmakedefine\s+(\w+)", r"/* #undef \1 */", txt)
+    txt = re.sub(r"#cmakedefine\s+(\w+)[^\n]*", r"/* #undef \1 */", txt)
     txt = txt.replace("/* #undef RIME_BUILD_SHARED_LIBS */", "#define RIME_BUILD_SHARED_LIBS")
     txt = txt.replace("/* #undef RIME_ENABLE_LOGGING */", "#define RIME_ENABLE_LOGGING")
     write_if_changed(p, txt)
